@@ -64,3 +64,53 @@ pub(crate) fn stub_pop_front_one_control_frame<T>(this: &mut Deque, _buf: &mut B
         None => None,
     }
 }
+
+// ---------------------------------------------------------------------------
+// Ghost deque for pop_frame's *blocked* regime (C01.order): the stream's queue is modelled
+// as "one DATA frame (ghost fields below) at the head"; the three Deque operations are
+// replaced so that no slab traffic is encoded and the put-back is observable:
+//   pop_front  -> hands out that DATA frame,
+//   push_front -> records the put-back and checks it is the same frame, unchanged,
+//   push_back  -> unreachable (appending a frame that could not be sent lets later
+//                 frames / END_STREAM overtake it).
+// The real Deque's order behaviour is C01.order.deque_fifo.
+// ---------------------------------------------------------------------------
+pub(crate) static mut G_DATA: (usize, usize, bool) = (0, 0, false); // off, rem, END_STREAM
+pub(crate) static mut G_FRONT_PUTS: u32 = 0;
+type GF = crate::frame::Frame<crate::proto::streams::verif_h::SymBuf>;
+
+pub(crate) fn stub_pop_front_one_data_frame<T>(this: &mut Deque, _buf: &mut Buffer<T>) -> Option<T> {
+    match this.indices.take() {
+        Some(_) => {
+            let (off, rem, eos) = unsafe { G_DATA };
+            let mut d = crate::frame::Data::new(crate::frame::StreamId::from(1),
+                crate::proto::streams::verif_h::SymBuf { off, rem });
+            d.set_end_stream(eos);
+            let f: GF = d.into();
+            assert!(std::mem::size_of::<T>() == std::mem::size_of::<GF>());
+            let t = unsafe { std::mem::transmute_copy::<GF, T>(&f) };
+            std::mem::forget(f);
+            Some(t)
+        }
+        None => None,
+    }
+}
+pub(crate) fn stub_push_front_record<T>(this: &mut Deque, _buf: &mut Buffer<T>, value: T) {
+    assert!(std::mem::size_of::<T>() == std::mem::size_of::<GF>());
+    let f = unsafe { std::mem::transmute_copy::<T, GF>(&value) };
+    std::mem::forget(value);
+    let (off, rem, eos) = unsafe { G_DATA };
+    match &f {
+        crate::frame::Frame::Data(d) => {
+            assert!(d.payload().off == off && d.payload().rem == rem && d.is_end_stream() == eos,
+                "C01.order: the frame put back is not the frame that was taken (bytes or END_STREAM changed)");
+        }
+        _ => panic!("C01.order: something other than the blocked DATA frame was put back"),
+    }
+    std::mem::forget(f);
+    unsafe { G_FRONT_PUTS += 1 };
+    this.indices = Some(Indices { head: 0, tail: 0 });
+}
+pub(crate) fn stub_push_back_blocked_unreachable<T>(_this: &mut Deque, _buf: &mut Buffer<T>, _value: T) {
+    panic!("C01.order: a DATA frame that could not be sent was appended to the BACK of its stream's queue (later frames / END_STREAM overtake unsent bytes)")
+}
